@@ -37,6 +37,8 @@ pub enum Via {
 	/// one WebSocket message sent as two frames (text/binary first frame, continuation with FIN), cut at the given
 	/// place; each frame on its own is within the limit whenever the whole message is at most twice the limit
 	WsFragmented(u16, bool),
+	/// (entry points that take any `http_body::Body`) a Content-Length header that understates the body
+	HttpUnderstatedLength(u16, bool),
 }
 
 #[derive(Clone, Copy, Debug, Serialize, Deserialize, PartialEq)]
@@ -121,6 +123,7 @@ impl SubCheck for Sizes {
 			2 => Just(Via::HttpNoContentLength),
 			2 => (proptest::collection::vec(any::<u16>(), 1..5), any::<bool>()).prop_map(|(c, cl)| Via::HttpChunked(c, cl)),
 			2 => (any::<u16>(), any::<bool>()).prop_map(|(c, t)| Via::WsFragmented(c, t)),
+			2 => (any::<u16>(), any::<bool>()).prop_map(|(c, t)| Via::HttpUnderstatedLength(c, t)),
 		];
 		let entry = prop_oneof![Just(EntryPoint::TowerService), Just(EntryPoint::LowLevel)];
 		(lim.clone(), lim, rel, pad, via, entry, 0u8..3)
@@ -244,9 +247,18 @@ impl SubCheck for Sizes {
 							let pos: Vec<usize> = cuts.iter().map(|c| pick_idx(*c, bytes.len() + 1)).collect();
 							(crate::props::c19::cut(&bytes, &pos), *cl)
 						}
+						Via::HttpUnderstatedLength(_, two) => (if *two { crate::props::c19::cut(&bytes, &[bytes.len() / 2]) } else { vec![bytes.clone()] }, false),
 						_ => unreachable!(),
 					};
-					let req = HttpReq { method: "POST".into(), headers: vec![("content-type".into(), b"application/json".to_vec())], frames, content_length: cl, uri: "/".into() };
+					let mut headers = vec![("content-type".to_string(), b"application/json".to_vec())];
+					if let Via::HttpUnderstatedLength(claim, _) = via {
+						// a declared length that is within the limit and smaller than the body
+						let top = (case.max_request as usize).min(bytes.len().saturating_sub(1));
+						let claimed = pick_idx(*claim, top + 1);
+						headers.push(("content-length".to_string(), claimed.to_string().into_bytes()));
+						obs.class("content-length-understates-the-body");
+					}
+					let req = HttpReq { method: "POST".into(), headers, frames, content_length: cl, uri: "/".into() };
 					let r = match case.entry {
 						EntryPoint::TowerService => fix.http(req).await,
 						EntryPoint::LowLevel => fix.http_lowlevel(req).await,
